@@ -9,6 +9,9 @@ use alloc::{vec, vec::Vec};
 
 use crate::polyfill::{ceil, ln};
 
+#[cfg(feature = "verif-hooks")]
+mod verif;
+
 const LN_2: f64 = core::f64::consts::LN_2;
 const LN_2_2: f64 = LN_2 * LN_2;
 
